@@ -184,16 +184,15 @@ def dense_op(sites, ops):
 def jw_term(sites, term):
     """Dense operator of a term [(opname, i), ...] = product (left to right) of Jordan-Wigner reference operators
     c_i = (prod_{k<i} JW_k) op_i, independent of tenpy's term machinery."""
-    D = int(np.prod([s.dim for s in sites]))
-    out = np.eye(D, dtype=complex)
+    # kron(A, B) @ kron(C, D) = kron(A @ C, B @ D): accumulate the ordered product site by site
+    local = [np.eye(s.dim, dtype=complex) for s in sites]
     for name, i in term:
         s = sites[i]
-        ops = {i: op_matrix(s, name)}
         if s.op_needs_JW(name):
             for k in range(i):
-                ops[k] = op_matrix(sites[k], 'JW')
-        out = out @ dense_op(sites, ops)
-    return out
+                local[k] = local[k] @ op_matrix(sites[k], 'JW')
+        local[i] = local[i] @ op_matrix(s, name)
+    return kron_all(local)
 
 
 def schmidt_values(vec, dims, cut):
@@ -214,3 +213,122 @@ def entropy(s, n=1):
 
 def fermionic_opnames(site):
     return [n for n in sorted(site.opnames) if site.op_needs_JW(n) and not n.startswith('JW')]
+
+
+def mpo_to_dense(mpo, hc=None):
+    """Dense matrix of a finite MPO by contracting the raw W tensors between IdL[0] and IdR[-1];
+    adds the hermitian conjugate if the MPO is flagged explicit_plus_hc."""
+    L = mpo.L
+    vec = None
+    for i in range(L):
+        W = mpo._W[i]
+        T = np.transpose(W.to_ndarray(), [W.get_leg_index('wL'), W.get_leg_index('wR'), W.get_leg_index('p'), W.get_leg_index('p*')])
+        if vec is None:
+            idl = mpo.IdL[0]
+            cur = T[idl]  # (wR, p, p*)
+            vec = np.transpose(cur, [1, 2, 0])  # (P, P*, wR)
+        else:
+            # vec: (P, P*, w) ; T: (w, wR, p, p*)
+            vec = np.einsum('abw,wrpq->apbqr', vec, T)
+            s = vec.shape
+            vec = vec.reshape(s[0] * s[1], s[2] * s[3], s[4])
+    idr = mpo.IdR[-1]
+    H = vec[:, :, idr]
+    flag = mpo.explicit_plus_hc if hc is None else hc
+    if flag:
+        H = H + H.conj().T
+    return H
+
+
+def coupling_terms_dense(sites, ct):
+    """Dense sum of a CouplingTerms instance from its documented nested dict
+    {i: {(op_i, op_str): {j: {op_j: strength}}}} with op_str on the sites between i and j."""
+    D = int(np.prod([s.dim for s in sites]))
+    H = np.zeros((D, D), dtype=complex)
+    L = len(sites)
+    for i, d1 in ct.coupling_terms.items():
+        for (op_i, op_str), d2 in d1.items():
+            for j, d3 in d2.items():
+                for op_j, strength in d3.items():
+                    if not (0 <= i < j < L):
+                        raise ValueError('coupling term outside of a finite chain: %r %r' % (i, j))
+                    ops = {i: op_matrix(sites[i], op_i), j: op_matrix(sites[j], op_j)}
+                    for k in range(i + 1, j):
+                        ops[k] = op_matrix(sites[k], op_str)
+                    H += strength * dense_op(sites, ops)
+    return H
+
+
+def onsite_terms_dense(sites, ot):
+    D = int(np.prod([s.dim for s in sites]))
+    H = np.zeros((D, D), dtype=complex)
+    for i, terms in enumerate(ot.onsite_terms):
+        for name, strength in terms.items():
+            H += strength * dense_op(sites, {i: op_matrix(sites[i], name)})
+    return H
+
+
+def coupling_terms_dense_multi(sites, ct):
+    """Dense sum of CouplingTerms or MultiCouplingTerms from the documented container structure
+    (`coupling_terms` resp. `terms_left` / `terms_right` / `connections`), finite chains only."""
+    if not hasattr(ct, 'connections'):
+        return coupling_terms_dense(sites, ct)
+    D = int(np.prod([s.dim for s in sites]))
+    H = np.zeros((D, D), dtype=complex)
+    ncon = len(ct.connections)
+    left = [None] * ncon
+    right = [None] * ncon
+
+    def walk(d0, connect, out, part=()):
+        for i, d1 in d0.items():
+            if i == connect:
+                for c in d1:
+                    out[c] = part
+            else:
+                for (op_i, op_str), d2 in d1.items():
+                    walk(d2, connect, out, part + ((i, op_i, op_str),))
+    walk(ct.terms_left, -1, left)
+    walk(ct.terms_right, ct.L + 1, right)
+    for c in range(1, ncon):
+        switchLR, op_switch, shift, strength = ct.connections[c]
+        ops = {}
+        tl, tr = left[c], right[c]
+        if tl is None or tr is None:
+            raise ValueError('connection %d not reachable in terms_left/terms_right' % c)
+        for n, (i, op, s) in enumerate(tl):
+            nxt = tl[n + 1][0] if n + 1 < len(tl) else switchLR
+            ops[i] = op_matrix(sites[i], op)
+            for k in range(i + 1, nxt):
+                ops[k] = op_matrix(sites[k], s)
+        ops[switchLR] = op_matrix(sites[switchLR], op_switch)
+        for n, (i, op, s) in enumerate(tr):
+            i = i + shift
+            nxt = tr[n + 1][0] + shift if n + 1 < len(tr) else switchLR
+            ops[i] = op_matrix(sites[i], op)
+            for k in range(nxt + 1, i):
+                ops[k] = op_matrix(sites[k], s)
+        H += strength * dense_op(sites, ops)
+    return H
+
+
+def exp_terms_dense(sites, et):
+    """Dense sum of ExponentiallyDecayingTerms on a finite chain from the documented tuples
+    (strength, lambda, op_i, op_j, subsites, subsites_start, op_string):
+    strength * lambda_i * prod_{n in S, i < n < j} lambda_n  A_i (op_string ...) B_j."""
+    D = int(np.prod([s.dim for s in sites]))
+    H = np.zeros((D, D), dtype=complex)
+    L = len(sites)
+    if len(et.centered_terms):
+        raise ValueError('centered terms not generated')
+    for strength, lam, op_i, op_j, subsites, subsites_start, op_string in et.exp_decaying_terms:
+        lam = np.full(L, lam) if np.ndim(lam) == 0 else np.asarray(lam)
+        for i in subsites_start:
+            for j in subsites:
+                if j <= i:
+                    continue
+                fac = lam[i] * np.prod([lam[n] for n in subsites if i < n < j])
+                ops = {int(i): op_matrix(sites[i], op_i), int(j): op_matrix(sites[j], op_j)}
+                for k in range(i + 1, j):
+                    ops[k] = op_matrix(sites[k], op_string)
+                H += strength * fac * dense_op(sites, ops)
+    return H
